@@ -268,6 +268,15 @@ class SymDict:
         self.val = z3.Store(self.val, ek, ev)
         self._order = None  # ghost order no longer known
 
+    def update(self, other=(), **kw):
+        """dict.update with a mapping / pairs of concrete size: one store per entry"""
+        if isinstance(other, SymDict) or (isinstance(other, SymSeq) and not other.concrete_len()):
+            raise Unsupported("dict.update with a mapping of symbolic size")
+        for k, v in (other.items() if isinstance(other, dict) else other):
+            self[k] = v
+        for k, v in kw.items():
+            self[k] = v
+
     def pop(self, k, *default):
         if callable(self.val):
             raise Unsupported("pop from structured symbolic dict")
